@@ -417,24 +417,55 @@ def _const_under(expr: ast.AST | None, atom) -> str | None:
 
 
 # -------------------------------------------------------------------------------------- R-PREFIX
+def prefix_attrs(prog) -> tuple[str, str]:
+    """(pending-prefix attribute, continuation-prefix attribute) of the renderer - read off its public `container(prefix,
+    second_prefix)` context manager: the attribute extended by the first parameter and the one extended by the second.
+    (`_prefix` / `_second_prefix` today; private names, free to change.)"""
+    got = getattr(prog, "_prefix_attrs", None)
+    if got is not None:
+        return got
+    out = None
+    for ci in prog.repo.classes.values():
+        m = ci.methods.get("container")
+        if m is None or not ci.module.name.startswith("flowmark.formats") or len(m.params) < 3:
+            continue
+        selfp, p1, p2 = m.params[0], m.params[1], m.params[2]
+        found: dict[str, str] = {}
+        for x in ast.walk(m.node):
+            if isinstance(x, ast.AugAssign) and isinstance(x.op, ast.Add) and isinstance(x.target, ast.Attribute) \
+                    and isinstance(x.target.value, ast.Name) and x.target.value.id == selfp and isinstance(x.value, ast.Name):
+                found[x.value.id] = x.target.attr
+            if isinstance(x, ast.Assign) and len(x.targets) == 1 and isinstance(x.targets[0], ast.Attribute) and isinstance(x.targets[0].value, ast.Name) \
+                    and x.targets[0].value.id == selfp and isinstance(x.value, ast.BinOp) and isinstance(x.value.op, ast.Add) \
+                    and isinstance(x.value.right, ast.Name) and chain_key(x.value.left) == f"{selfp}.{x.targets[0].attr}":
+                found[x.value.right.id] = x.targets[0].attr
+        if p1 in found and p2 in found and found[p1] != found[p2]:
+            out = (found[p1], found[p2])
+    if out is None:
+        raise AnalysisError("anchor vanished: the renderer's container(prefix, second_prefix) context manager (the two prefix attributes cannot be identified)")
+    prog._prefix_attrs = out  # type: ignore[attr-defined]
+    return out
+
+
 def _is_consume(prog, fi: FuncInfo, n: Node) -> bool:
     """self._prefix = self._second_prefix"""
     if n.kind == "stmt" and isinstance(n.ast, ast.Assign) and len(n.ast.targets) == 1:
         k = chain_key(n.ast.targets[0])
-        if k is not None and k.endswith("._prefix") and k.split(".")[0] == fi.params[0]:
+        PA, SA = prefix_attrs(prog)
+        if k is not None and k == f"{fi.params[0]}.{PA}":
             v = chain_key(n.ast.value)
-            if v is not None and v.endswith("._second_prefix") and v.split(".")[0] == fi.params[0]:
+            if v is not None and v == f"{fi.params[0]}.{SA}":
                 return True
             if isinstance(n.ast.value, ast.Name) and n.ast.value.id not in fi.params:
                 # a local that holds self._second_prefix (read once at the top of a leaf renderer): the same value as long as
                 # nothing in this function changes the continuation prefix in between
                 org = origins(prog, fi, n.ast.value, n)
                 selfp = fi.params[0]
-                if org == frozenset({("attr", ("param", selfp), "_second_prefix")}):
-                    changes = any(isinstance(x, ast.Attribute) and isinstance(x.ctx, ast.Store) and x.attr == "_second_prefix" for x in ast.walk(fi.node)) \
+                if org == frozenset({("attr", ("param", selfp), SA)}):
+                    changes = any(isinstance(x, ast.Attribute) and isinstance(x.ctx, ast.Store) and x.attr == SA for x in ast.walk(fi.node)) \
                         or any(isinstance(x, (ast.With, ast.AsyncWith)) for x in ast.walk(fi.node))
                     calls_self = any(isinstance(c, ast.Call) and isinstance(c.func, ast.Attribute) and isinstance(c.func.value, ast.Name) and c.func.value.id == selfp
-                                     and "_second_prefix" in {k.rpartition(".")[2] for k in prog.may_assign(t)}
+                                     and SA in {k.rpartition(".")[2] for k in prog.may_assign(t)}
                                      for c in ast.walk(fi.node) for t in (prog.resolve_call(fi, c) if isinstance(c, ast.Call) and isinstance(prog.resolve_call(fi, c), list) else []))
                     return not changes and not calls_self
     return False
@@ -559,9 +590,27 @@ def ends_with_newline(ctx: Ctx, fi: FuncInfo, expr: ast.AST | None, node: Node, 
     return None
 
 
+def _line_wrapper_attr(ctx: Ctx) -> str:
+    """The renderer attribute that holds the line wrapper: what __init__ stores its (public) `line_wrapper` argument in."""
+    for ci in ctx.repo.classes.values():
+        if "container" in ci.methods and ci.module.name.startswith("flowmark.formats"):
+            init = ci.methods.get("__init__")
+            if init is None:
+                continue
+            for x in ast.walk(init.node):
+                if isinstance(x, (ast.Assign, ast.AnnAssign)) and getattr(x, "value", None) is not None and isinstance(x.value, ast.Name) \
+                        and x.value.id in init.params and ("wrapper" in x.value.id):
+                    t = x.targets[0] if isinstance(x, ast.Assign) else x.target
+                    if isinstance(t, ast.Attribute):
+                        return t.attr
+    raise AnalysisError("anchor vanished: the renderer attribute holding the line wrapper")
+
+
 def check_prefix(ctx: Ctx, clauses: set[str] | None = None) -> None:
     rm = get_model(ctx)
     prog = ctx.prog
+    PA, SA = prefix_attrs(prog)  # today: _prefix, _second_prefix
+    LWA = _line_wrapper_attr(ctx)
     want = clauses or {"P1", "P2", "P3", "P5", "P6"}
     seen_methods: set[str] = set()
     counts = {"LEAF": 0, "CONTAINER": 0, "PASS": 0, "INLINE": 0}
@@ -582,7 +631,7 @@ def check_prefix(ctx: Ctx, clauses: set[str] | None = None) -> None:
         key = f"{m.qual} [{kind}]"
         if kind == "LEAF":
             if "P1" in want:
-                ctx.ob("R-PREFIX-P1", key + " uses the pending prefix", f"{selfname}._prefix" in attrs,
+                ctx.ob("R-PREFIX-P1", key + " uses the pending prefix", f"{selfname}.{PA}" in attrs,
                        "a block that starts a line must emit the container's first-line prefix (list marker, `> `, footnote label); "
                        "its text does not depend on self._prefix", where(m, m.node))
             if "P1" in want:
@@ -596,20 +645,20 @@ def check_prefix(ctx: Ctx, clauses: set[str] | None = None) -> None:
                         for bn in fl.loop_body_nodes(h):
                             for ex in fl.node_exprs(bn):
                                 for sub in walk_no_nested(ex):
-                                    if isinstance(sub, ast.Attribute) and isinstance(sub.ctx, ast.Load) and chain_key(sub) == f"{sn}._prefix":
+                                    if isinstance(sub, ast.Attribute) and isinstance(sub.ctx, ast.Load) and chain_key(sub) == f"{sn}.{PA}":
                                         ctx.ob("R-PREFIX-P1", f"{f.qual} :: line emitted in a loop uses the continuation prefix", False,
                                                "lines produced in a loop are continuation lines of the block: they must be written under "
                                                "self._second_prefix; self._prefix holds the first-line prefix (list marker) until consumed",
                                                where(f, bn))
                 # the paragraph wrapper receives (text, first-line prefix, continuation prefix) in that order
                 for n, c in prog.flow(m).all_calls():
-                    if isinstance(c.func, ast.Attribute) and chain_key(c.func) == f"{selfname}._line_wrapper" and len(c.args) == 3:
+                    if isinstance(c.func, ast.Attribute) and chain_key(c.func) == f"{selfname}.{LWA}" and len(c.args) == 3:
                         o1 = origins(prog, m, c.args[1], n)
                         o2 = origins(prog, m, c.args[2], n)
                         # ("def", "effect", key): the attribute may have been updated by the children rendered before
                         o1 = frozenset(o for o in o1 if not (o[0] == "def" and o[1] == "effect"))
                         o2 = frozenset(o for o in o2 if not (o[0] == "def" and o[1] == "effect"))
-                        ok12 = all(o[0] == "attr" and o[2] == "_prefix" for o in o1) and all(o[0] == "attr" and o[2] == "_second_prefix" for o in o2)
+                        ok12 = all(o[0] == "attr" and o[2] == PA for o in o1) and all(o[0] == "attr" and o[2] == SA for o in o2)
                         ctx.ob("R-PREFIX-P1", f"{m.qual} :: line wrapper indents", ok12 and bool(o1) and bool(o2),
                                "the line wrapper must get self._prefix as the first-line indent and self._second_prefix as the continuation indent",
                                where(m, c))
@@ -641,14 +690,14 @@ def check_prefix(ctx: Ctx, clauses: set[str] | None = None) -> None:
                     for piece, pnode in pieces:
                         sl = prog.slice(m, piece, pnode)
                         ctx.ob("R-PREFIX-P1", f"{m.qual} [CONTAINER] own line `{norm(piece)[:40]}` uses the pending prefix",
-                               f"{selfname}._prefix" in sl.attrs(),
+                               f"{selfname}.{PA}" in sl.attrs(),
                                "a line emitted by the container itself (before its children) must carry the pending first-line prefix",
                                where(m, pnode))
         elif kind == "PASS" and "P5" in want:
             el = rm.el_param(m)
             dep_children = f"{el}.children" in attrs
             ctx.ob("R-PREFIX-P5", key + " empty element keeps its marker",
-                   f"{selfname}._prefix" in attrs and dep_children,
+                   f"{selfname}.{PA}" in attrs and dep_children,
                    f"{reg.type_name} can be empty ({PASS_THROUGH[reg.type_name]}); with no child to carry it, the pending prefix "
                    "(the list marker) must be emitted by the method itself, else the item vanishes", where(m, m.node))
         if "P6" in want and kind in ("LEAF", "CONTAINER"):
@@ -716,7 +765,7 @@ def check_blank_line_hygiene(ctx: Ctx) -> None:
                                 sl = prog.slice(f, c.args[0], n)
                                 stripped = any(op in (".rstrip()", ".strip()") for op, _ in sl.ops) or all(
                                     s[0] == "const" for s in sl.sources)
-                                uses_prefix = any(a.endswith("_prefix") for a in sl.attrs())
+                                uses_prefix = any(a.rpartition(".")[2] in prefix_attrs(prog) for a in sl.attrs())
                                 ctx.ob("R-PREFIX-P4", f"{f.qual} :: empty code line", stripped or not uses_prefix,
                                        "an empty line inside a code block must be emitted under the right-stripped prefix "
                                        "(no trailing spaces are added)", where(f, n))
@@ -736,7 +785,7 @@ def check_blank_line_hygiene(ctx: Ctx) -> None:
                     continue
                 sl = prog.slice(f, empty_arm, node)
                 stripped = any(op in (".rstrip()", ".strip()") for op, _ in sl.ops) or all(s_[0] == "const" for s_ in sl.sources)
-                uses_prefix = any(a.endswith("_prefix") for a in sl.attrs()) or any("prefix" in p_ for p_ in sl.params())
+                uses_prefix = any(a.rpartition(".")[2] in prefix_attrs(prog) for a in sl.attrs()) or any("prefix" in p_ for p_ in sl.params())
                 ctx.ob("R-PREFIX-P4", f"{f.qual} :: empty code line", stripped or not uses_prefix,
                        "an empty line inside a code block must be emitted under the right-stripped prefix "
                        "(no trailing spaces are added)", where(f, node))
